@@ -101,7 +101,12 @@ impl Statement {
                 // TODO: Handle array values.
                 if !matches!(rhe, Update { .. }) {
                     if let Some(value) = rhe.value() {
-                        env.add_variable(var, value);
+                        // Signals and components are not versioned by SSA and
+                        // may be assigned different values on different paths,
+                        // so only the values of local variables are tracked.
+                        if meta.type_knowledge().is_local() {
+                            env.add_variable(var, value);
+                        }
                         result = result || meta.value_knowledge_mut().set_reduces_to(value.clone());
                     }
                 }
